@@ -979,47 +979,6 @@ Proof.
   destruct (l =? k) eqn:E; [apply Z.eqb_eq in E; subst; tauto|]. apply IH. tauto.
 Qed.
 
-(* merge_group (keys kept): whenever it returns, every (key, member, row) of the result is one of
-   an operand *)
-Theorem group_merge_attach {M T} (a b o' : tgroup M T) :
-  labels (snd a) = map fst (fst a) -> labels (snd b) = map fst (fst b) ->
-  group_merge false a b = Some o' ->
-  map fst (fst o') = sortZ (map fst (fst a) ++ map fst (fst b))
-  /\ (forall x, In x (triples o') -> In x (triples a) \/ In x (triples b))
-  /\ wf_group o'.
-Proof.
-  intros La Lb. unfold group_merge.
-  destruct (existsb (fun k => memZ k (map fst (fst b))) (map fst (fst a))) eqn:E; [discriminate|]. intros H.
-  pose proof (mk_group_wf _ _ _ H) as Hwf.
-  destruct (mk_group_some _ _ _ H) as (mem & -> & H1 & H2 & H3).
-  rewrite map_app in *. split; [exact (loc_labels _ _ _ H1)|]. split; [|exact Hwf].
-  intros x Hin. unfold triples in Hin. simpl in Hin. apply in_map_iff in Hin. destruct Hin as ([k v] & <- & Hc). simpl.
-  destruct (loc_In _ _ _ _ _ H1 Hc) as [_ Hv]. apply loc1_In in Hv. apply in_app_or in Hv.
-  destruct Hv as [Hv|Hv].
-  - left. rewrite loc1_app_l by (rewrite La; apply in_map_iff; exists (k, v); auto).
-    unfold triples. apply in_map_iff. exists (k, v). auto.
-  - right. rewrite loc1_app_r.
-    + unfold triples. apply in_map_iff. exists (k, v). auto.
-    + rewrite La. intros Hka.
-      assert (Hkb : In k (map fst (fst b))) by (apply in_map_iff; exists (k, v); auto).
-      assert (existsb (fun k => memZ k (map fst (fst b))) (map fst (fst a)) = true).
-      { apply existsb_exists. exists k. split; [exact Hka|]. apply memZ_spec. exact Hkb. }
-      congruence.
-Qed.
-
-(* ... but it does not always return: groups with disjoint, interleaved keys cannot be merged with
-   their metadata (the concatenated metadata index is not sorted, set_info refuses it) *)
-Theorem group_merge_interleaved_refuted :
-  exists (a b : tgroup Z Z), wf_group a /\ wf_group b
-    /\ (forall k, In k (map fst (fst a)) -> ~ In k (map fst (fst b)))
-    /\ group_merge false a b = None.
-Proof.
-  exists ([(1, 10); (5, 50)], [(1, 100); (5, 500)]), ([(2, 20); (3, 30)], [(2, 200); (3, 300)]).
-  split; [split; reflexivity|]. split; [split; reflexivity|]. split; [|vm_compute; reflexivity].
-  simpl. intros k [H|[H|H]] [H'|[H'|H']]; lia.
-Qed.
-
-(* restrict / get / value_from on a group: keys and rows untouched *)
 Lemma strict_from_nodup l : forall lo, strict_from lo l = true -> ~ In lo l /\ NoDup l /\ Forall (fun x => lo < x) l.
 Proof.
   induction l as [|x r IH]; simpl; intros lo H; [repeat split; auto; constructor|].
@@ -1043,6 +1002,169 @@ Proof.
   destruct (memZ x r) eqn:E; [apply memZ_spec in E; tauto|reflexivity].
 Qed.
 
+(* DataFrame.sort_index (insertion sort by label) is the sorted permutation of the frame *)
+Lemma insert_label_perm {T} (x : Z * T) l : Permutation (x :: l) (insert_label x l).
+Proof.
+  induction l as [|y r IH]; simpl; [apply Permutation_refl|].
+  destruct (fst x <? fst y); [apply Permutation_refl|].
+  eapply perm_trans; [apply perm_swap|]. apply perm_skip. exact IH.
+Qed.
+
+Lemma sort_index_perm {T} (m : frame T) : Permutation m (sort_index m).
+Proof.
+  unfold sort_index. rewrite <- (app_nil_r m) at 1. generalize (@nil (Z * T)) as acc.
+  induction m as [|x r IH]; intros acc; simpl; [apply Permutation_refl|].
+  eapply perm_trans; [|apply IH].
+  eapply perm_trans; [apply Permutation_middle|]. apply Permutation_app_head. apply insert_label_perm.
+Qed.
+
+Lemma insert_label_sorted_from {T} (x : Z * T) l : forall lo,
+  sorted_from lo (labels l) -> lo <= fst x -> sorted_from lo (labels (insert_label x l)).
+Proof.
+  induction l as [|y r IH]; intros lo H Hx; simpl in *; [auto|].
+  destruct H as [H1 H2]. destruct (fst x <? fst y) eqn:E; simpl.
+  - repeat split; try lia. exact H2.
+  - split; [exact H1|]. apply IH; [exact H2|lia].
+Qed.
+
+Lemma insert_label_sorted {T} (x : Z * T) l : sortedZ (labels l) -> sortedZ (labels (insert_label x l)).
+Proof.
+  intros H. destruct (sortedZ_sorted_from _ H) as [lo Hlo].
+  eapply sortedZ_from. apply (insert_label_sorted_from x l (Z.min lo (fst x))); [|lia].
+  eapply sorted_from_weaken; [|exact Hlo]. lia.
+Qed.
+
+Lemma sort_index_sorted {T} (m : frame T) : sortedZ (labels (sort_index m)).
+Proof.
+  unfold sort_index. assert (H : sortedZ (labels (@nil (Z * T)))) by exact I.
+  revert H. generalize (@nil (Z * T)) as acc.
+  induction m as [|x r IH]; intros acc H; simpl; [exact H|]. apply IH. apply insert_label_sorted. exact H.
+Qed.
+
+Lemma sorted_perm_eq l : forall l', sortedZ l -> sortedZ l' -> Permutation l l' -> l = l'.
+Proof.
+  induction l as [|x r IH]; intros l' Hl Hs Hp.
+  - apply Permutation_nil in Hp. auto.
+  - destruct l' as [|y r']; [apply Permutation_sym, Permutation_nil in Hp; discriminate|].
+    assert (x = y).
+    { assert (In x (y :: r')) by (eapply Permutation_in; [exact Hp|left; reflexivity]).
+      assert (In y (x :: r)) by (eapply Permutation_in; [apply Permutation_sym; exact Hp|left; reflexivity]).
+      pose proof (sortedZ_cons_Forall _ _ Hl) as F1. pose proof (sortedZ_cons_Forall _ _ Hs) as F2.
+      rewrite Forall_forall in F1, F2.
+      destruct H as [->|H]; [reflexivity|]. destruct H0 as [->|H0]; [reflexivity|].
+      specialize (F1 _ H0). specialize (F2 _ H). lia. }
+    subst y. f_equal. apply IH.
+    + eapply sortedZ_tail; exact Hl.
+    + eapply sortedZ_tail; exact Hs.
+    + eapply Permutation_cons_inv; exact Hp.
+Qed.
+
+Lemma labels_sort_index {T} (m : frame T) : labels (sort_index m) = sortZ (labels m).
+Proof.
+  apply sorted_perm_eq; [apply sort_index_sorted|apply sortZ_sorted|].
+  eapply perm_trans; [|apply sortZ_perm]. unfold labels. apply Permutation_map.
+  apply Permutation_sym, sort_index_perm.
+Qed.
+
+Lemma loc1_perm_nodup {T} (m m' : frame T) k : NoDup (labels m) -> Permutation m m' -> loc1 m' k = loc1 m k.
+Proof.
+  intros Hn Hp.
+  assert (Hn' : NoDup (labels m')) by (eapply Permutation_NoDup; [|exact Hn]; unfold labels; apply Permutation_map; exact Hp).
+  destruct (loc1 m k) as [t|] eqn:E1.
+  - apply loc1_nodup_In; [exact Hn'|]. eapply Permutation_in; [exact Hp|]. apply loc1_In. exact E1.
+  - destruct (loc1 m' k) as [t'|] eqn:E2; [|reflexivity].
+    apply loc1_In in E2. apply (Permutation_in _ (Permutation_sym Hp)) in E2.
+    rewrite (loc1_nodup_In _ _ _ Hn E2) in E1. discriminate.
+Qed.
+
+Lemma loc1_some {T} (m : frame T) k : In k (labels m) -> exists t, loc1 m k = Some t.
+Proof.
+  induction m as [|[l t] r IH]; simpl; [tauto|]. intros [H|H].
+  - subst. rewrite Z.eqb_refl. eauto.
+  - destruct (l =? k); [eauto|]. apply IH. exact H.
+Qed.
+
+Lemma loc_total {T} (m : frame T) ks : (forall k, In k ks -> In k (labels m)) -> exists o, loc m ks = Some o.
+Proof.
+  induction ks as [|k r IH]; intros H; simpl; [eauto|].
+  destruct (loc1_some m k (H k (or_introl eq_refl))) as [t ->].
+  destruct IH as [o ->]; [intros k' Hk'; apply H; right; exact Hk'|]. eauto.
+Qed.
+
+Lemma NoDup_app_disjoint (l1 l2 : list Z) :
+  NoDup l1 -> NoDup l2 -> (forall k, In k l1 -> ~ In k l2) -> NoDup (l1 ++ l2).
+Proof.
+  induction 1 as [|x r Hx Hr IH]; intros H2 Hd; simpl; [exact H2|].
+  constructor.
+  - intros Hin. apply in_app_or in Hin. destruct Hin as [Hin|Hin]; [tauto|]. exact (Hd x (or_introl eq_refl) Hin).
+  - apply IH; [exact H2|]. intros k Hk. apply Hd. right. exact Hk.
+Qed.
+
+(* merge_group (keys kept): every (key, member, row) of the result is one of an operand ... *)
+Theorem group_merge_attach {M T} (a b o' : tgroup M T) :
+  labels (snd a) = map fst (fst a) -> labels (snd b) = map fst (fst b) ->
+  group_merge false a b = Some o' ->
+  map fst (fst o') = sortZ (map fst (fst a) ++ map fst (fst b))
+  /\ (forall x, In x (triples o') -> In x (triples a) \/ In x (triples b))
+  /\ wf_group o'.
+Proof.
+  intros La Lb. unfold group_merge.
+  destruct (existsb (fun k => memZ k (map fst (fst b))) (map fst (fst a))) eqn:E; [discriminate|]. intros H.
+  pose proof (mk_group_wf _ _ _ H) as Hwf.
+  destruct (mk_group_some _ _ _ H) as (mem & -> & H1 & H2 & H3).
+  assert (Hn : NoDup (labels (snd a ++ snd b))).
+  { apply (Permutation_NoDup (l := sortZ (labels (snd a ++ snd b)))); [apply Permutation_sym, sortZ_perm|].
+    rewrite <- labels_sort_index, H2. exact H3. }
+  rewrite map_app in *. split; [exact (loc_labels _ _ _ H1)|]. split; [|exact Hwf].
+  intros x Hin. unfold triples in Hin. simpl in Hin. apply in_map_iff in Hin. destruct Hin as ([k v] & <- & Hc). simpl.
+  rewrite (loc1_perm_nodup _ _ k Hn (sort_index_perm _)).
+  destruct (loc_In _ _ _ _ _ H1 Hc) as [_ Hv]. apply loc1_In in Hv. apply in_app_or in Hv.
+  destruct Hv as [Hv|Hv].
+  - left. rewrite loc1_app_l by (rewrite La; apply in_map_iff; exists (k, v); auto).
+    unfold triples. apply in_map_iff. exists (k, v). auto.
+  - right. rewrite loc1_app_r.
+    + unfold triples. apply in_map_iff. exists (k, v). auto.
+    + rewrite La. intros Hka.
+      assert (Hkb : In k (map fst (fst b))) by (apply in_map_iff; exists (k, v); auto).
+      assert (existsb (fun k => memZ k (map fst (fst b))) (map fst (fst a)) = true).
+      { apply existsb_exists. exists k. split; [exact Hka|]. apply memZ_spec. exact Hkb. }
+      congruence.
+Qed.
+
+(* ... and it ALWAYS returns for well-formed groups with disjoint keys, interleaved or not *)
+Theorem group_merge_total {M T} (a b : tgroup M T) :
+  wf_group a -> wf_group b -> (forall k, In k (map fst (fst a)) -> ~ In k (map fst (fst b))) ->
+  exists o', group_merge false a b = Some o'.
+Proof.
+  intros [Sa La] [Sb Lb] Hd. unfold group_merge.
+  destruct (existsb (fun k => memZ k (map fst (fst b))) (map fst (fst a))) eqn:E.
+  { apply existsb_exists in E. destruct E as (k & Hk & Hm). apply memZ_spec in Hm. exfalso. exact (Hd k Hk Hm). }
+  unfold mk_group, lookup_all. rewrite map_app.
+  set (ks := map fst (fst a) ++ map fst (fst b)).
+  assert (Hn : NoDup ks) by (apply NoDup_app_disjoint; [apply strict_incb_nodup; exact Sa|apply strict_incb_nodup; exact Sb|exact Hd]).
+  assert (Hns : NoDup (sortZ ks)) by (eapply Permutation_NoDup; [apply sortZ_perm|exact Hn]).
+  rewrite (nodupb_complete _ Hns).
+  destruct (loc_total (fst a ++ fst b) (sortZ ks)) as [mem Hmem].
+  { intros k Hk. unfold labels. rewrite map_app. fold ks. eapply Permutation_in; [apply Permutation_sym, sortZ_perm|exact Hk]. }
+  rewrite Hmem.
+  replace (list_eqb (labels (sort_index (snd a ++ snd b))) (sortZ ks)) with true; [eauto|].
+  symmetry. apply list_eqb_eq. rewrite labels_sort_index. unfold labels. rewrite map_app.
+  fold (labels (snd a)). fold (labels (snd b)). rewrite La, Lb. reflexivity.
+Qed.
+
+(* before the repair the concatenated metadata was not sorted: groups with disjoint, interleaved keys
+   could not be merged with their metadata (set_info refused the index) *)
+Theorem group_merge_orig_interleaved_refuted :
+  exists (a b : tgroup Z Z), wf_group a /\ wf_group b
+    /\ (forall k, In k (map fst (fst a)) -> ~ In k (map fst (fst b)))
+    /\ group_merge_orig a b = None.
+Proof.
+  exists ([(1, 10); (5, 50)], [(1, 100); (5, 500)]), ([(2, 20); (3, 30)], [(2, 200); (3, 300)]).
+  split; [split; reflexivity|]. split; [split; reflexivity|]. split; [|vm_compute; reflexivity].
+  simpl. intros k [H|[H|H]] [H'|[H'|H']]; lia.
+Qed.
+
+(* restrict / get / value_from on a group: keys and rows untouched *)
 Lemma loc_self_suffix {T} (suf : frame T) : forall pre, NoDup (labels (pre ++ suf)) ->
   loc (pre ++ suf) (labels suf) = Some suf.
 Proof.
